@@ -111,3 +111,7 @@ Fixpoint misused_class (in_cc : bool) (s : list N) : list N :=
   end.
 
 Definition regex_prepare (e : list N) : list N := misused_class false (misused_repetition (cleanup e)).
+(* RegexRule::make: after the clean-up of unknown escapes the expression is tried as it stands; the two bracket passes are applied
+   only to what the regex crate does not take ([compiles]: the verdict of the crate, an input of the model) *)
+Definition regex_effective (compiles : list N -> bool) (e : list N) : list N :=
+  let c := cleanup e in if compiles c then c else regex_prepare e.
